@@ -9,24 +9,31 @@ import (
 )
 
 type famSpec struct {
-	id, fam, name  string
-	sizeQ, sizeT   string
-	tapeQ, tapeT   string
-	callsQ, callsT int
-	deleg          bool
-	keys           []string
-	truncations    bool
-	budget         int
-	rule           string
-	assume         []string
-	lazyT          bool
-	flags          []string // as-built flags this family knows about
+	id, fam, name   string
+	sizeQ, sizeT    string
+	tapeQ, tapeT    string
+	callsQ, callsT  int
+	deleg           bool
+	keys            []string
+	truncations     bool
+	budget          int
+	rule            string
+	assume          []string
+	lazyT           bool
+	flags           []string // as-built flags this family knows about
+	opts            srcOpts  // rendering options
+	by              bool     // bystander family: the expectation gets the result / extras entry
+	failIsViolation bool
+	render          func([]any) string
 }
 
 // runFam is the shared body of the generator-source checks: TLC enumerates the
 // family and emits expectations, every program goes through the real compiler,
 // every case is run on the real runtime and natively, and judged.
 func runFam(c *vf.Check, f famSpec) {
+	if f.render == nil {
+		f.render = renderCo
+	}
 	if only := os.Getenv("VERIF_ONLY_FAM"); only != "" && only != f.fam { // debugging knob
 		return
 	}
@@ -64,13 +71,44 @@ func runFam(c *vf.Check, f famSpec) {
 		}
 		cases = ex
 	}
-	run := runSrcFamilyCalls(c, cases, srcOpts{Deleg: f.deleg, Budget: budget})
-	nfail := noteCompileFailures(c, run)
+	if f.by {
+		// a bystander is called once; the driver appends ["ret", result, extras...] to the log
+		for i := range cases {
+			if len(cases[i].Ideal) == 0 {
+				continue
+			}
+			ev := obj(cases[i].Ideal[0])
+			if str(ev["panic"]) == "" {
+				ev["effs"] = append(arr(ev["effs"]), []any{"ret", cases[i].RetA, 42, 7, 3, 1})
+			}
+		}
+	}
+	o := f.opts
+	o.Deleg = f.deleg
+	o.Budget = budget
+	run := runSrcFamilyCalls(c, cases, o)
+	nfail := 0
+	if f.failIsViolation {
+		// the generated version of this code must exist: a compiler failure violates this property too
+		groups := compileFailures(run)
+		for _, k := range sortedKeys(groups) {
+			v := groups[k]
+			nfail += len(v)
+			src := f.render(arr(run.Progs[v[0]]))
+			c.Violation(J{"family": f.name, "prog": run.Progs[v[0]], "status": run.Status[v[0]], "source": src},
+				fmt.Sprintf("[%s] the compiler fails on %d programs: %s\n%s", f.name, len(v), run.Status[v[0]], src))
+			for j := 1; j < len(v); j++ {
+				c.Violation(nil, "")
+			}
+		}
+	} else {
+		nfail = noteCompileFailures(c, run)
+	}
 	flag := "KF04"
 	if len(f.flags) > 0 {
 		flag = f.flags[0]
 	}
-	st := judgeSrc(c, f.name, cases, run, flag, f.keys, renderCo)
+	st := judgeSrc(c, f.name, cases, run, flag, f.keys, f.render)
 	c.Note("%s: programs=%d (compile/build failures %d) cases=%d compared=%d pass=%d known=%d violations=%d; spec=native on all %d cases",
 		f.name, len(run.Progs), nfail, len(cases), st.Compared, st.Pass, st.Known, st.Viol, len(cases))
 	if len(cases) > 1 {
